@@ -3,11 +3,258 @@
 // Contracts for package z80, read by /verif/engine (vcheck).  This file holds
 // comments only: with the build tag off it is not compiled, with it on it adds
 // nothing to the package.  Grammar: /verif/DESIGN.md, Appendix A.
+//
+// In clauses: parameter names denote entry values, old(e) is e in the
+// pre-state, g is the ghost record VGhost (memory contents behind cpu.Memory,
+// bags of bus/port accesses, handler call counters), vs* are the spec
+// functions of /verif/spec/z80.  `modifies` is a checked frame.
 
 package z80
+
+// ---------------------------------------------------------------- decode + execute
 
 //@ func (cpu *CPU) executeOne()
 //@   layer P
 //@   requires cpu.Memory != nil
 //@   ensures [diff] vsExecDiff(cpu, old(cpu), g, old(g)) == 0
 //@   modifies cpu.States, cpu.HALT, g.Mem, g.Rd, g.Wr, g.PIn, g.POut, g.Retn, g.Reti
+
+// ---------------------------------------------------------------- pure helpers (cpu.go, z80.go)
+
+//@ func addrOff(addr uint16, off uint8) (r uint16)
+//@   ensures r == vsAddrOff(addr, off)
+
+//@ func toU16(l, h uint8) (r uint16)
+//@   ensures r == uint16(h)<<8|uint16(l)
+
+//@ func fromU16(v uint16) (l, h uint8)
+//@   ensures l == uint8(v)
+//@   ensures h == uint8(v>>8)
+
+//@ func (r Register) U16() (v uint16)
+//@   props C16
+//@   ensures v == uint16(r.Hi)<<8|uint16(r.Lo)
+
+//@ func (r *Register) SetU16(v uint16)
+//@   props C16
+//@   ensures r.Hi == uint8(v>>8)
+//@   ensures r.Lo == uint8(v)
+//@   modifies r.Hi, r.Lo
+
+//@ func (cpu *CPU) flagC() (r bool)
+//@   ensures r == (cpu.AF.Lo&0x01 != 0)
+//@ func (cpu *CPU) flagN() (r bool)
+//@   ensures r == (cpu.AF.Lo&0x02 != 0)
+//@ func (cpu *CPU) flagPV() (r bool)
+//@   ensures r == (cpu.AF.Lo&0x04 != 0)
+//@ func (cpu *CPU) flagH() (r bool)
+//@   ensures r == (cpu.AF.Lo&0x10 != 0)
+//@ func (cpu *CPU) flagZ() (r bool)
+//@   ensures r == (cpu.AF.Lo&0x40 != 0)
+//@ func (cpu *CPU) flagS() (r bool)
+//@   ensures r == (cpu.AF.Lo&0x80 != 0)
+
+// ---------------------------------------------------------------- bus helpers (cpu.go)
+
+//@ func (cpu *CPU) fetch() (v uint8)
+//@   requires cpu.Memory != nil
+//@   ensures v == old(g.Mem)[old(cpu.PC)]
+//@   ensures cpu.PC == old(cpu.PC)+1
+//@   ensures g.Rd == vsBump64k(old(g.Rd), old(cpu.PC))
+//@   modifies cpu.PC, g.Rd
+
+//@ func (cpu *CPU) fetchM1() (c uint8)
+//@   props C14
+//@   requires cpu.Memory != nil
+//@   ensures c == old(g.Mem)[old(cpu.PC)]
+//@   ensures cpu.PC == old(cpu.PC)+1
+//@   ensures cpu.IR.Lo == vsIncR(old(cpu.IR.Lo))
+//@   ensures g.Rd == vsBump64k(old(g.Rd), old(cpu.PC))
+//@   modifies cpu.PC, cpu.IR.Lo, g.Rd
+
+//@ func (cpu *CPU) fetch2() (l, h uint8)
+//@   requires cpu.Memory != nil
+//@   ensures l == old(g.Mem)[old(cpu.PC)]
+//@   ensures h == old(g.Mem)[old(cpu.PC)+1]
+//@   ensures cpu.PC == old(cpu.PC)+2
+//@   ensures g.Rd == vsBump64k(vsBump64k(old(g.Rd), old(cpu.PC)), old(cpu.PC)+1)
+//@   modifies cpu.PC, g.Rd
+
+//@ func (cpu *CPU) fetch16() (v uint16)
+//@   requires cpu.Memory != nil
+//@   ensures v == uint16(old(g.Mem)[old(cpu.PC)+1])<<8|uint16(old(g.Mem)[old(cpu.PC)])
+//@   ensures cpu.PC == old(cpu.PC)+2
+//@   ensures g.Rd == vsBump64k(vsBump64k(old(g.Rd), old(cpu.PC)), old(cpu.PC)+1)
+//@   modifies cpu.PC, g.Rd
+
+//@ func (cpu *CPU) readU16(addr uint16) (v uint16)
+//@   requires cpu.Memory != nil
+//@   ensures v == uint16(old(g.Mem)[addr+1])<<8|uint16(old(g.Mem)[addr])
+//@   ensures g.Rd == vsBump64k(vsBump64k(old(g.Rd), addr), addr+1)
+//@   modifies g.Rd
+
+//@ func (cpu *CPU) writeU16(addr uint16, v uint16)
+//@   requires cpu.Memory != nil
+//@   ensures g.Mem == vsStore(vsStore(old(g.Mem), addr, uint8(v)), addr+1, uint8(v>>8))
+//@   ensures g.Wr == vsBumpWr(vsBumpWr(old(g.Wr), addr, uint8(v)), addr+1, uint8(v>>8))
+//@   modifies g.Mem, g.Wr
+
+//@ func (cpu *CPU) ioIn(addr uint8) (v uint8)
+//@   ensures v == vsIteU8(cpu.IO == nil, 0, g.InVal[addr])
+//@   ensures g.PIn == vsIte256(cpu.IO == nil, old(g.PIn), vsBump256(old(g.PIn), addr))
+//@   modifies g.PIn
+
+//@ func (cpu *CPU) ioOut(addr uint8, value uint8)
+//@   ensures g.POut == vsIte64k(cpu.IO == nil, old(g.POut), vsBumpOut(old(g.POut), addr, value))
+//@   modifies g.POut
+
+// ---------------------------------------------------------------- 8-bit ALU (accum.go): textbook definitions
+
+//@ func (cpu *CPU) addU8(a, b uint8) (r uint8)
+//@   props C02
+//@   ensures r == vsAdd8(a, b, 0).R
+//@   ensures cpu.AF.Lo == vsAdd8(a, b, 0).F
+//@   modifies cpu.AF.Lo
+
+//@ func (cpu *CPU) adcU8(a, b uint8) (r uint8)
+//@   props C02
+//@   ensures r == vsAdd8(a, b, old(cpu.AF.Lo)&1).R
+//@   ensures cpu.AF.Lo == vsAdd8(a, b, old(cpu.AF.Lo)&1).F
+//@   modifies cpu.AF.Lo
+
+//@ func (cpu *CPU) subU8(a, b uint8) (r uint8)
+//@   props C02
+//@   ensures r == vsSub8(a, b, 0).R
+//@   ensures cpu.AF.Lo == vsSub8(a, b, 0).F
+//@   modifies cpu.AF.Lo
+
+//@ func (cpu *CPU) sbcU8(a, b uint8) (r uint8)
+//@   props C02
+//@   ensures r == vsSub8(a, b, old(cpu.AF.Lo)&1).R
+//@   ensures cpu.AF.Lo == vsSub8(a, b, old(cpu.AF.Lo)&1).F
+//@   modifies cpu.AF.Lo
+
+//@ func (cpu *CPU) cpU8(a, b uint8) (r uint8)
+//@   props C02
+//@   ensures r == vsCp8(a, b).R
+//@   ensures cpu.AF.Lo == vsCp8(a, b).F
+//@   modifies cpu.AF.Lo
+
+//@ func (cpu *CPU) andU8(a, b uint8) (r uint8)
+//@   props C02
+//@   ensures r == vsAnd8(a, b).R
+//@   ensures cpu.AF.Lo == vsAnd8(a, b).F
+//@   modifies cpu.AF.Lo
+
+//@ func (cpu *CPU) orU8(a, b uint8) (r uint8)
+//@   props C02
+//@   ensures r == vsOr8(a, b).R
+//@   ensures cpu.AF.Lo == vsOr8(a, b).F
+//@   modifies cpu.AF.Lo
+
+//@ func (cpu *CPU) xorU8(a, b uint8) (r uint8)
+//@   props C02
+//@   ensures r == vsXor8(a, b).R
+//@   ensures cpu.AF.Lo == vsXor8(a, b).F
+//@   modifies cpu.AF.Lo
+
+//@ func (cpu *CPU) incU8(a uint8) (r uint8)
+//@   props C02
+//@   ensures r == vsInc8(a, old(cpu.AF.Lo)).R
+//@   ensures cpu.AF.Lo == vsInc8(a, old(cpu.AF.Lo)).F
+//@   modifies cpu.AF.Lo
+
+//@ func (cpu *CPU) decU8(a uint8) (r uint8)
+//@   props C02
+//@   ensures r == vsDec8(a, old(cpu.AF.Lo)).R
+//@   ensures cpu.AF.Lo == vsDec8(a, old(cpu.AF.Lo)).F
+//@   modifies cpu.AF.Lo
+
+//@ func (cpu *CPU) decP8(p *uint8)
+//@   props C02
+//@   requires p != &cpu.AF.Lo
+//@   ensures *p == vsDec8(old(*p), old(cpu.AF.Lo)).R
+//@   ensures cpu.AF.Lo == vsDec8(old(*p), old(cpu.AF.Lo)).F
+//@   modifies *p, cpu.AF.Lo
+
+//@ func (cpu *CPU) rlcU8(a uint8) (r uint8)
+//@   props C02
+//@   ensures r == vsRot(0, a, old(cpu.AF.Lo)).R
+//@   ensures cpu.AF.Lo == vsRot(0, a, old(cpu.AF.Lo)).F
+//@   modifies cpu.AF.Lo
+//@ func (cpu *CPU) rrcU8(a uint8) (r uint8)
+//@   props C02
+//@   ensures r == vsRot(1, a, old(cpu.AF.Lo)).R
+//@   ensures cpu.AF.Lo == vsRot(1, a, old(cpu.AF.Lo)).F
+//@   modifies cpu.AF.Lo
+//@ func (cpu *CPU) rlU8(a uint8) (r uint8)
+//@   props C02
+//@   ensures r == vsRot(2, a, old(cpu.AF.Lo)).R
+//@   ensures cpu.AF.Lo == vsRot(2, a, old(cpu.AF.Lo)).F
+//@   modifies cpu.AF.Lo
+//@ func (cpu *CPU) rrU8(a uint8) (r uint8)
+//@   props C02
+//@   ensures r == vsRot(3, a, old(cpu.AF.Lo)).R
+//@   ensures cpu.AF.Lo == vsRot(3, a, old(cpu.AF.Lo)).F
+//@   modifies cpu.AF.Lo
+//@ func (cpu *CPU) slaU8(a uint8) (r uint8)
+//@   props C02
+//@   ensures r == vsRot(4, a, old(cpu.AF.Lo)).R
+//@   ensures cpu.AF.Lo == vsRot(4, a, old(cpu.AF.Lo)).F
+//@   modifies cpu.AF.Lo
+//@ func (cpu *CPU) sraU8(a uint8) (r uint8)
+//@   props C02
+//@   ensures r == vsRot(5, a, old(cpu.AF.Lo)).R
+//@   ensures cpu.AF.Lo == vsRot(5, a, old(cpu.AF.Lo)).F
+//@   modifies cpu.AF.Lo
+//@ func (cpu *CPU) sl1U8(a uint8) (r uint8)
+//@   props C02
+//@   ensures r == vsRot(6, a, old(cpu.AF.Lo)).R
+//@   ensures cpu.AF.Lo == vsRot(6, a, old(cpu.AF.Lo)).F
+//@   modifies cpu.AF.Lo
+//@ func (cpu *CPU) srlU8(a uint8) (r uint8)
+//@   props C02
+//@   ensures r == vsRot(7, a, old(cpu.AF.Lo)).R
+//@   ensures cpu.AF.Lo == vsRot(7, a, old(cpu.AF.Lo)).F
+//@   modifies cpu.AF.Lo
+
+//@ func (cpu *CPU) bitchk8(b, v uint8)
+//@   props C02
+//@   ensures cpu.AF.Lo == vsBitF(b, v, old(cpu.AF.Lo))|v&0x28
+//@   modifies cpu.AF.Lo
+
+//@ func (cpu *CPU) bitset8(b, v uint8) (r uint8)
+//@   props C02
+//@   ensures r == v|1<<b
+
+//@ func (cpu *CPU) bitres8(b, v uint8) (r uint8)
+//@   props C02
+//@   ensures r == v&^(1<<b)
+
+// ---------------------------------------------------------------- 16-bit arithmetic (accum.go)
+
+//@ func (cpu *CPU) addU16(a, b uint16) (r uint16)
+//@   props C03
+//@   ensures r == vsAdd16(a, b, old(cpu.AF.Lo)).R
+//@   ensures cpu.AF.Lo == vsAdd16(a, b, old(cpu.AF.Lo)).F
+//@   modifies cpu.AF.Lo
+
+//@ func (cpu *CPU) adcU16(a, b uint16) (r uint16)
+//@   props C03
+//@   ensures r == vsAdc16(a, b, old(cpu.AF.Lo)).R
+//@   ensures cpu.AF.Lo == vsAdc16(a, b, old(cpu.AF.Lo)).F
+//@   modifies cpu.AF.Lo
+
+//@ func (cpu *CPU) sbcU16(a, b uint16) (r uint16)
+//@   props C03
+//@   ensures r == vsSbc16(a, b, old(cpu.AF.Lo)).R
+//@   ensures cpu.AF.Lo == vsSbc16(a, b, old(cpu.AF.Lo)).F
+//@   modifies cpu.AF.Lo
+
+//@ func (cpu *CPU) incU16(a uint16) (r uint16)
+//@   props C03
+//@   ensures r == a+1
+
+//@ func (cpu *CPU) decU16(a uint16) (r uint16)
+//@   props C03
+//@   ensures r == a-1
